@@ -145,8 +145,11 @@ func main() {
 	if hpkg == nil {
 		fatal(fmt.Errorf("no package"))
 	}
-	hpkg.Build()
-	built[hpkg] = true
+	// build every package's SSA up front: lazy building from several workers races
+	prog.Build()
+	for _, p := range prog.AllPackages() {
+		built[p] = true
+	}
 	loadSec := time.Since(t0).Seconds()
 
 	if *list {
